@@ -12,7 +12,7 @@ import (
 func init() {
 	Register(&Rule{
 		Name:  "R-FRESH-FILE",
-		Props: []string{"C06", "C04", "C05"},
+		Props: []string{"C06", "C04", "C05", "C01"},
 		Min:   3,
 		Doc: "every receive-side load of a sidecar (LoadOrCreateSidecar*) is dominated by a stat of the data file (a non-sidecar path) that happens before the data file is created or resized, " +
 			"and the stat result reaches a branch that removes the sidecar before the load: without observing the data file no implementation can tell 'sidecar present, file gone/shorter' from a valid partial state",
